@@ -41,7 +41,7 @@ use std::rc::Rc;
 pub const DEF: PropDef = PropDef {
     id: "C19",
     level: "fault_enumeration",
-    rule: "cases = (every fact set of <=4 (quick) / <=5 (thorough) triples of a 10-triple universe) x (25 sets of 1-3 denial constraints out of 8: type clash, 2-cycle/self-loop, 3-fact clash, two-value functional clash, unary denial, 2-cycle of ANY predicate (variable predicate), single-premise self-loop (repeated variable), fully ground clash; all singles, all pairs of the first five, 4 pairs and 3 triples with the others) x (9 goal patterns over constants/variables incl. repeated variable, variable predicate, ground) x (every order strategy of the H2 order oracle: all n! global rankings of the case's facts + every call-indexed deviation from sorted order of total cost 1 move; thorough additionally every deviation of total cost 2 moves (one call or two calls) for the all-variable goal, whose answer is the whole intersection of the repairs); each (case, goal, strategy) is one Reasoner::query_with_repairs call compared with the brute-force intersection of all subset-maximal consistent subsets; plus infer_new_facts_semi_naive_with_repairs on (case x 17 rule sets x all rankings; the rule sets derive facts that clash with a stored fact, with a fact derived in the same round, with the other conclusion of the SAME rule instance, through a two-premise delta join, with a fact derived a round later, under filters between two variables, and - a self-loop under the 2-cycle constraint - with themselves). Clauses for the final store: it violates no constraint; the input facts it still contains are exactly one of the subset-maximal consistent subsets of the input (the input itself when that is consistent); every fact in it is in the least model of (those input facts, rules); and query_with_repairs(?X ?P ?Y) on the same reasoner afterwards returns exactly the store (a consistent set is its only repair). Family 'big' (enumerated first): curated sets of 6 facts (thorough: also 7) with three independent conflicts (8 repairs) or two overlapping three-fact conflicts (9 repairs): all n! rankings for the all-variable goal, every cost-1 deviation strategy for all 9 goals and for the materialisation part. evaluations = engine calls; non-trivial = (fact set, constraint set) that is inconsistent and has >=2 repairs; distinct = distinct such pairs; outcomes = distinct answer sets / final stores",
+    rule: "cases = (every fact set of <=4 (quick) / <=5 (thorough) triples of a 10-triple universe) x (25 sets of 1-3 denial constraints out of 8: type clash, 2-cycle/self-loop, 3-fact clash, two-value functional clash, unary denial, 2-cycle of ANY predicate (variable predicate), single-premise self-loop (repeated variable), fully ground clash; all singles, all pairs of the first five, 4 pairs and 3 triples with the others) x (9 goal patterns over constants/variables incl. repeated variable, variable predicate, ground) x (every order strategy of the H2 order oracle: all n! global rankings of the case's facts + every call-indexed deviation from sorted order of total cost 1 move; thorough additionally every deviation of total cost 2 moves (one call or two calls) for the all-variable goal, whose answer is the whole intersection of the repairs); each (case, goal, strategy) is one Reasoner::query_with_repairs call compared with the brute-force intersection of all subset-maximal consistent subsets; plus infer_new_facts_semi_naive_with_repairs on (case x 15 (thorough 17) rule sets x all rankings; the rule sets derive facts that clash with a stored fact, with a fact derived in the same round, with the other conclusion of the SAME rule instance, through a two-premise delta join, with a fact derived a round later, under filters between two variables, and - a self-loop under the 2-cycle constraint - with themselves). Clauses for the final store: it violates no constraint; the input facts it still contains are exactly one of the subset-maximal consistent subsets of the input (the input itself when that is consistent); every fact in it is in the least model of (those input facts, rules); and query_with_repairs(?X ?P ?Y) on the same reasoner afterwards returns exactly the store (a consistent set is its only repair). Family 'big' (enumerated first): curated sets of 6 facts (thorough: also 7) with three independent conflicts (8 repairs) or two overlapping three-fact conflicts (9 repairs): all n! rankings for the all-variable goal, every cost-1 deviation strategy for all 9 goals and for the materialisation part. evaluations = engine calls; non-trivial = (fact set, constraint set) that is inconsistent and has >=2 repairs; distinct = distinct such pairs; outcomes = distinct answer sets / final stores",
     assumptions: &[
         "universe: individuals a,b,c; predicates t (types A,B,C), f, g; constraints are pure conjunctive denial constraints without filters (violates_constraints ignores Rule::filters; the statement does not fix filter semantics)",
         "hook H2 (datalog/src/verif.rs) is add-only: with no oracle installed Ordered::iter yields the HashSet order",
@@ -132,6 +132,8 @@ const RULE_SETS: [&[&str]; 17] = [
     &["?y f ?x :- ?x f ?y | ?x != ?y"],
     &["?x t B :- ?x f ?y | ?x = ?y", "?y t A :- ?x f ?y | ?x != ?y"],
 ];
+
+const THOROUGH_ONLY_RULE_SETS: [usize; 2] = [11, 13];
 
 fn parse_body(s: &str) -> Vec<Atom> {
     s.split(',').map(|a| dl::atom(a.trim())).collect()
@@ -887,7 +889,9 @@ fn run(ctx: &Ctx) -> ShardOut {
         u
     };
     let goals: Vec<Atom> = GOALS.iter().map(|g| dl::atom(g)).collect();
-    let rule_sets: Vec<Vec<Rule>> = RULE_SETS.iter().map(|rs| rs.iter().map(|r| dl::rule(r)).collect()).collect();
+    // the quick tier leaves out two variants (heads of the clashing two-conclusion rule in the other order;
+    // two premises with two conclusions) that the thorough tier runs
+    let rule_sets: Vec<Vec<Rule>> = RULE_SETS.iter().enumerate().filter(|(i, _)| thorough || !THOROUGH_ONLY_RULE_SETS.contains(i)).map(|(_, rs)| rs.iter().map(|r| dl::rule(r)).collect()).collect();
     let fsets = subsets_upto(universe.len(), if thorough { 5 } else { 4 });
     let csets = constraint_sets();
     out.count("max_fact_sets", fsets.len() as u64);
